@@ -262,7 +262,10 @@ def serial_buffer():
             while True:
                 await c._receive_impl(); sizes.append(len(c._buffer))
         t = asyncio.create_task(pump())
-        await asyncio.sleep(1.5)
+        for _ in range(1000):
+            await asyncio.sleep(0.01)
+            if len(got) >= 3: break
+        await asyncio.sleep(0.05)
         t.cancel()
         await c.close()
         print('RESULT ' + json.dumps({'delivered': got, 'max_buffer': max(sizes) if sizes else -1}))
@@ -293,7 +296,11 @@ def serial_split_marker():
                 c.reader = FakeReader([stream[:cut], stream[cut:]], eof=False); c._buffer = bytearray(); c._state = State.CONNECTED
                 async def pump(c=c):
                     while True: await c._receive_impl()
-                t = asyncio.create_task(pump()); await asyncio.sleep(0.05); t.cancel(); await c.close()
+                t = asyncio.create_task(pump())
+                for _ in range(400):
+                    await asyncio.sleep(0.005)
+                    if len(got) >= 3: break
+                await asyncio.sleep(0.01); t.cancel(); await c.close()
                 if got != [11, 12, 13]: results[f'noise={nnoise},cut={cut}'] = got
         print('RESULT ' + json.dumps({'bad': results}))
     asyncio.run(main())
@@ -340,7 +347,11 @@ def delivery_order():
         c.reader = FakeReader([stream[i:i + 5] for i in range(0, len(stream), 5)], eof=False); c._state = State.CONNECTED
         async def pump():
             while True: await c._receive_impl()
-        t = asyncio.create_task(pump()); await asyncio.sleep(0.5); t.cancel(); await c.close()
+        t = asyncio.create_task(pump())
+        for _ in range(500):
+            await asyncio.sleep(0.01)
+            if len([x for x in got if x in (11, 12, 13, 14)]) >= 4: break
+        await asyncio.sleep(0.1); t.cancel(); await c.close()
         print('RESULT ' + json.dumps({'delivered': got}))
     asyncio.run(main())
     ''')
@@ -378,7 +389,7 @@ def delivery_all_clients():
                 except Exception as e:
                     escaped.append(type(e).__name__); return
         t = asyncio.create_task(pump())
-        for _ in range(200):
+        for _ in range(1200):
             await asyncio.sleep(0.005)
             if len(got) >= len(expected) or escaped: break
         await asyncio.sleep(0.05); t.cancel(); await c.close()
@@ -487,7 +498,7 @@ def reconnect_after_reset():
         c._connect_impl = fake_connect_impl
         c.writer = ResetWriter([]); c.reader = FakeReader([], eof=False); c._state = State.DISCONNECTED      # the previous session ended with a reset
         t = asyncio.create_task(c.connect())
-        for _ in range(40):
+        for _ in range(120):
             await asyncio.sleep(0.05)
             if c.state == State.CONNECTED: break
         st = c.state.name
